@@ -142,4 +142,11 @@ def demoThen : Option State := do
 example : (demoThen.map fun s => (s.go, s.ran 0, s.ran 1, s.errs 0, s.errs 1, s.pc 2)) =
     some (true, 1, 1, 1, 0, .idle .goSelf) := by decide
 
+/-- every callback registered and not removed before the trigger has run exactly once when such a run ends -/
+theorem C02_every_callback_runs {N : Nat} {s s' : State} {tr : List (Nat × Label)} (h : sys.Reach s) (hb : Below N s)
+    (hg : s.go = true) (r : sys.Run s tr s') :
+    tr.length ≤ rank N s ∧ (sys.Quiescent s' → ∀ k, k < s'.nextK → s'.removed k = false → s'.ran k = 1) :=
+  ⟨C01_runs_terminate hb r, fun hq k hk hr => C02_exactly_once (h.run sys r) hq (run_go_mono r hg) k hk hr⟩
+
+
 end MoThreads.SignalCore
